@@ -384,7 +384,10 @@ impl Future for Interp {
                     }
                 }
                 A::NewStream => {
-                    let kinds = if me.prog.tracked { 3 } else { 2 };
+                    // 3..=5: payload types whose vtables (lift, lower, dealloc_lists) the real generator emitted
+                    // (never with both ends in the guest: the canonical ABI only allows numeric element
+                    // types for a copy within one component instance)
+                    let kinds = if me.prog.tracked { 6 } else { 2 };
                     let kind = pick(kinds);
                     let objs = match kind {
                         0 => {
@@ -395,14 +398,40 @@ impl Future for Interp {
                             let arr = if me.prog.guest_pairs { pick(4) } else { 1 + pick(3) };
                             sobj::new_stream::<u8>(arr)
                         }
-                        _ => sobj::new_stream::<Tracked>(1 + pick(3)),
+                        2 => sobj::new_stream::<Tracked>(1 + pick(3)),
+                        3 => {
+                            fault("generated_payload_vtable");
+                            sobj::new_stream::<String>(1 + pick(3))
+                        }
+                        4 => {
+                            fault("generated_payload_vtable");
+                            sobj::new_stream::<Vec<u8>>(1 + pick(3))
+                        }
+                        _ => {
+                            fault("generated_payload_vtable");
+                            sobj::new_stream::<crate::genpay::Rec>(1 + pick(3))
+                        }
                     };
                     gtr!("i{}: new stream -> {:?}", me.iid, objs.iter().map(|o| o.name()).collect::<Vec<_>>());
                     me.add(objs);
                 }
                 A::NewFuture => {
                     let objs = if me.prog.tracked && pick(2) == 1 {
-                        fobj::new_future::<Tracked>(1 + pick(2))
+                        match pick(4) {
+                            0 => fobj::new_future::<Tracked>(1 + pick(2)),
+                            1 => {
+                                fault("generated_payload_vtable");
+                                fobj::new_future::<String>(1 + pick(2))
+                            }
+                            2 => {
+                                fault("generated_payload_vtable");
+                                fobj::new_future::<Vec<u8>>(1 + pick(2))
+                            }
+                            _ => {
+                                fault("generated_payload_vtable");
+                                fobj::new_future::<crate::genpay::Rec>(1 + pick(2))
+                            }
+                        }
                     } else {
                         let arr = if me.prog.guest_pairs { pick(3) } else { 1 + pick(2) };
                         fobj::new_future::<u32>(arr)
